@@ -56,6 +56,7 @@ func init() {
 			{Name: "PATH-BLOCKSEEK", What: "(*block).seek positions the buffer on every path (shared with C02; under C03 since sixth-round seed C03-g: a skipped seek(0) makes a cached block look empty)", Floor: 2, Run: ruleBlockSeek},
 			{Name: "SEEK-REDIRECT", What: "a Seek served from the cache redirects the read-ahead worker (or is limited to the synchronous mode)", Floor: 1, Run: ruleSeekRedirect},
 			{Name: "PATH-NEXTBLOCK", What: "nextBlock reports a read-ahead result (data or error) only for the block whose base was wanted: with a cache the goroutine skips cached members and can be at the end of the file while the Reader is behind it (shared with C02, C09; here since fourteenth-round seed C03-o)", Floor: 1, Run: ruleNextBlock},
+			{Name: "PATH-SEEK", What: "Seek sets lastChunk = {off,off} on every successful return, also the one served from the cache: LastChunk, Begin and a transaction opened next report the same interval with and without a cache (shared with C02, C13; here since sixteenth-round seed C03-r)", Floor: 1, Run: rulePathSeek},
 			{Name: "FAILED-CURRENT", What: "nextBlock makes the failed block current before it returns its error: a Seek afterwards, also one served from the cache, re-points the parked read-ahead goroutine (shared with C02, C09)", Floor: 1, Run: ruleFailedCurrent},
 			{Name: "ERR-OVERWRITE", What: "a possibly failing store to Reader.err is read before the field is assigned again (shared with C09; the hang of seed C09-n needs a cache)", Floor: 2, Run: ruleErrOverwrite},
 			{Name: "BLOCK-HOLDERS", What: "a Block is stored only into the holders the ownership rules follow (Reader.current, decompressor.blk, the caches' entries), and is never sent on a channel or put into a slice: OWN-1/2/3 are complete only for a closed list of holders (added after twelfth-round seed C03-m)", Floor: 3, Run: ruleBlockHolders},
